@@ -32,6 +32,7 @@ def build_sandbox(base):
     put("alias2", "x.txt")
     put("outside", "secret.txt")
     put("outside", "dir/inner.txt")
+    put("outside", "dir/index.html")
     put("outside2", "never.txt")
     put("outside2", "sub/b.txt")
     R = os.path.join(base, "root")
@@ -43,13 +44,20 @@ def build_sandbox(base):
     os.symlink("../../outside/dir", os.path.join(R, "sub", "dirlink_out2"))
     os.symlink("../outside/secret.txt", os.path.join(base, "alias_target", "link_out"))
     os.symlink("../root/a.txt", os.path.join(base, "alias_target", "link_to_root"))
+    # index files that are symbolic links: out of the root (must not be served when symlinks are checked) and inside it
+    os.makedirs(os.path.join(R, "leakidx"))
+    os.symlink("../../outside/secret.txt", os.path.join(R, "leakidx", "index.html"))
+    os.makedirs(os.path.join(R, "inidx"))
+    os.symlink("../a.txt", os.path.join(R, "inidx", "index.html"))
+    os.makedirs(os.path.join(base, "alias_target", "leakidx"))
+    os.symlink(os.path.join(base, "outside", "dir", "inner.txt"), os.path.join(base, "alias_target", "leakidx", "index.html"))
     os.mkfifo(os.path.join(R, "fifo"))
     return markers
 
 
 SEGS = ["a.txt", "sub", "b.txt", "deep", "c.txt", ".", "..", "", ".dotfile", ".hidden", "link_in", "dirlink_in", "link_out", "dirlink_out", "abs_link_out", "dirlink_out2", "secret.txt", "dir", "inner.txt",
         "al", "alx", "inroot.txt", "at.txt", "al2", "x.txt", "list", "withindex", "index.html", "root2", "r2.txt", "outside", "outside2", "never.txt", "alias_target", "fifo", "sp ace.txt", SPECIAL, "...", "..;", "root",
-        "per%cent.txt", "pl+us.txt", "utfé.txt", "nonexistent", "..\\", "%2e%2e", "..%2f", "%00", "\xff\xfe"]
+        "per%cent.txt", "pl+us.txt", "utfé.txt", "nonexistent", "leakidx", "inidx", "leakidx", "inidx", "..\\", "%2e%2e", "..%2f", "%00", "\xff\xfe"]
 
 
 def gen_path(rnd):
@@ -60,7 +68,7 @@ def gen_path(rnd):
     if rnd.random() < 0.1:
         segs += [".."] * rnd.randrange(1, 4) + [rnd.choice(["outside2", "root2", "outside"]), rnd.choice(["never.txt", "r2.txt", "secret.txt"])]
     raw = "/" + "/".join(segs)
-    if rnd.random() < 0.15:
+    if rnd.random() < (0.5 if segs[-1] in ("leakidx", "inidx", "withindex", "dirlink_out", "dirlink_out2", "dirlink_in", "dir") else 0.15):
         raw += "/"
     return raw.encode("utf-8", "surrogateescape") if isinstance(raw, str) else raw
 
